@@ -740,9 +740,9 @@ def content_fingerprint(c):
 
 def regions_of(spec, r, size):
     """Named byte ranges of the file for the corruption sweep: (name, start, end, authenticated)."""
-    out = [("header.nonce", 0, 16, True), ("header.padding0", 16, 20, True), ("header.magic+version+flags", 20, 32, True),
-           ("header.block-fields", 32, 56, True), ("header.sgtl+timestamp", 56, 68, True), ("header.versions", 68, 92, True),
-           ("header.padding1", 92, 96, True), ("header-mac", 96, 128, True), ("key-blob", 128, 200, True),
+    out = [("header.nonce", 0, 16, True), ("header.padding0", 16, 20, True), ("header.magic+version+flags", 20, 28, True),
+           ("header.block-fields", 28, 52, True), ("header.sgtl+timestamp", 52, 64, True), ("header.versions", 64, 88, True),
+           ("header.build-number", 88, 92, True), ("header.padding1", 92, 96, True), ("header-mac", 96, 128, True), ("key-blob", 128, 200, True),
            ("key-blob-padding", 200, 208, spec["ver"] != "2.0u")]
     if r is None:
         out.append(("rest", 208, size, True))
@@ -825,6 +825,42 @@ def negative_phase(ctx, spec, data, r, pristine, tag):
                 except sb2_rom.RefReject:
                     if auth:
                         n_model += 1
+            spsdk_judge(bad, spec["kek"], "corruption", name)
+    # checksum-preserving corruption: CTR is malleable, so two different bytes of a command header can be swapped in
+    # the plain text by editing the cipher text; the additive command checksum cannot see that, only the MACs can
+    if r is not None:
+        import struct
+
+        for si, s in enumerate(r["sections"]):
+            body = s["offset"] + 48 + 32 * s["hmac_count"]
+            pos = 0
+            cands = []
+            for raw in s["raw_commands"]:
+                tag, flags, address, count, dword = raw
+                plain = struct.pack("<BH3L", tag, flags, address, count, dword)  # header bytes 1..15
+                pairs = [(i, j) for i in range(1, 15) for j in range(i + 1, 15) if plain[i] != plain[j]]  # keep the tag byte
+                if pairs:
+                    cands.append((pos, plain, pairs))
+                pos += 16 + (align16(count) if tag == 2 else 0)
+            if not cands:
+                continue
+            pos, plain, pairs = core.pick(rng, cands)
+            i, j = core.pick(rng, pairs)
+            bad = bytearray(data)
+            d = plain[i] ^ plain[j]
+            bad[body + pos + 1 + i] ^= d
+            bad[body + pos + 1 + j] ^= d
+            bad = bytes(bad)
+            name = f"section{si}.checksum-preserving-swap"
+            if not r["issues"]:
+                try:
+                    sb2_rom.decode(bad, spec["kek"], diagnose=False)
+                    raise core.Inconclusive(f"ROM model accepted a {name} ({spec['ver']})")
+                except sb2_rom.RefReject as e:
+                    if e.code not in ("section-hmac", "signature"):
+                        raise core.Inconclusive(f"{name}: the model stopped at {e.code}, the swap was not checksum-preserving") from None
+                    n_model += 1
+                    ctx.count("neg_checksum_preserving_swaps")
             spsdk_judge(bad, spec["kek"], "corruption", name)
     ctx.count("neg_model_rejected", n_model)
 
